@@ -111,11 +111,38 @@ def checkWith {σ : Type} (m0 : σ) (mstep : σ → Ev → Option σ) (sc : Driv
   let mut dq : List (Nat × List Nat) := []
   let mut dreads : List (Nat × Nat × Nat) := []
   let mut lastPeer : Option (Nat × Option Nat) := none    -- the peer action whose result comes next: send n / steal
+  -- "? acked k A": when a write on tcp object k failed for good, the kernel had put A payload bytes of that connection on the wire
+  -- (TCP_INFO: bytes sent minus bytes retransmitted); the counts reported by the writes on k so far (this one included) cover them (C02)
+  let mut wops : List (Nat × Nat) := []          -- write op id -> object
+  let mut wsum : List (Nat × Nat) := []          -- object -> sum of the counts reported by completed writes
+  let mut ackedNext : Option (Nat × Nat) := none
   -- "? idle": the harness states that nothing can be ready at the next PollOne (C03: a timeout then, not success)
   let mut idleNext := false
   for ln in sc.lines do
     i := i + 1
     if ln.kind == '?' && ln.toks == ["idle"] then idleNext := true
+    match ln.kind, ln.toks with
+    | '?', ["acked", k, a] => ackedNext := (nat? k).bind fun k => (nat? a).map fun a => (k, a)
+    | '<', "call" :: w :: k :: _len :: r =>
+      if w == "write" || w == "writeall" then
+        match nat? k, opOf r with
+        | some k, some op => wops := (op, k) :: wops
+        | _, _ => pure ()
+    | '<', "enter" :: op :: _rtok :: r =>
+      match (nat? op).bind fun op => wops.find? (·.1 == op) with
+      | some (_, k) =>
+        let n := (((Driver.attr? r "n").bind Driver.int?).getD 0).toNat
+        let tot := Sonic.Spec.Loop.lookup wsum k 0 + n
+        wsum := Sonic.Spec.Loop.update wsum k tot
+        match ackedNext with
+        | some (k', a) =>
+          ackedNext := none
+          if k' == k && tot < a then
+            let d := s!"key=loop.write-count-below-bytes-on-wire event=[{ln.raw}] the writes on object {k} have reported {tot} bytes in all, the kernel has put {a} payload bytes of this connection on the wire"
+            if res.specFail.isNone then res := { res with specFail := some (i, d) } else res := { res with more := res.more ++ [d] }
+        | none => pure ()
+      | none => pure ()
+    | _, _ => pure ()
     -- "? blocked <ms>": a PollOne of the script's top level stayed inside the poller that long beyond what its callbacks slept
     -- (PollOne "will return immediately in case there is no event to process"; a timer that is due meanwhile cannot fire)
     match ln.kind, ln.toks with
